@@ -12,6 +12,11 @@ STRINGS = [
     # chemistry the bundled rules cannot type completely: the dedicated error must carry the partial assignment
     "C{[>][<][Si](C)(C)O[>][<]}|gauss(150, 5)|[Si](C)(C)C",
     "FC(F)(F){[>][<]C(F)(F)C(F)(F)[>][<]}|gauss(150, 5)|F",
+    # hetero-aromatic side groups (rule strings that occur twice in the bundled rule file)
+    "C{[>][<]CC([>])n1ccnc1[<]}|gauss(250, 20)|[H]",
+    # molecules that END partially generated: a branching object with a non-empty right terminal and nothing after it
+    "CC{[>][<]CC([>])C[>]; [<][H][<]}|gauss(200, 20)|",
+    "CC{[>][<]CC[>][<]}|gauss(100, 10)|",
 ]
 # the same chemistry written with another atom order (typing must not depend on numbering)
 EQUIVALENT = [
@@ -67,7 +72,7 @@ def run(tier):
     # (1) every baseline observation: total + element-consistent; copies of the files = defaults; partial refused
     for (sid, op, cfg), obs in sorted(base.items()):
         what = f"{strings[sid - 1]} typed with {cfg} files in a pristine process"
-        if cfg == "partial":
+        if cfg == "partial" or obs[0] in ("partial-accepted", "partial-refused"):
             if obs[0] == "partial-accepted":
                 v.violation("C20:partial-molecule-typed", f"{what}: a partially generated molecule was typed", {"string": strings[sid - 1]})
             elif obs[0] not in ("partial-refused", "not-partial"):
